@@ -181,7 +181,12 @@ func (r *runner) clientConc(ci int, ops []Op) {
 						b.Put(rc.Key, rc.Val.Bytes())
 					}
 				}
+				dump := append([]byte(nil), b.Dump()...)
 				err = db.Write(b, r.wo(op))
+				if !bytes.Equal(dump, b.Dump()) {
+					// e.g. records of merged writers left in the leader's batch
+					r.viol("arg-modified", "arg-modified:batch", fmt.Sprintf("client %d: Write changed the caller's batch (%d -> %d bytes)", ci, len(dump), len(b.Dump())))
+				}
 			}
 			simrt.SetOp("")
 			if err != nil {
@@ -1216,7 +1221,7 @@ func genConc(prop string, seed uint64, g *gen, thorough bool) *Case {
 		c.Knobs.WriteBuffer = r.pick(512, 1024, 4096, 65536)
 		g.wb = c.Knobs.WriteBuffer
 	}
-	if prop == "C10" {
+	if prop == "C10" || prop == "C20" {
 		nc = r.rng(2, 6)
 		c.Knobs.NoWriteMerge = r.p(0.1)
 		// keep values small relative to the merge limit but sometimes huge
@@ -1227,7 +1232,7 @@ func genConc(prop string, seed uint64, g *gen, thorough bool) *Case {
 	if (prop == "C10" || prop == "C09") && r.p(0.3) {
 		closer = r.intn(nc)
 	}
-	storm := prop == "C10" && r.p(0.35)
+	storm := (prop == "C10" || prop == "C20") && r.p(0.35)
 	if storm {
 		// many small-buffer writers: merges and overflow hand-offs all the time
 		nc = r.rng(4, 8)
